@@ -431,3 +431,62 @@
         kani::cover!(c == b'1', "digit string");
         std::mem::forget(a); std::mem::forget(b);
     }
+
+    // ---- the pairs whose coercion fails inside the code under test are thorough-tier Kani obligations (the Error
+    // dropped there is expensive for CBMC). BOUNDED native stand-in for the quick tier: a pool of boundary values in
+    // every repr, all pairs and all triples.
+//# ob name=scalar_pool_native role=native_bounded fn="impl Ord/PartialEq/Hash for Value" kind=bounded bound="pool of ~90 scalar values: integers 0, +-1, 2^53-1..2^53+1, 2^63-1, 2^63, 2^64-1, 2^64, 2^127-1, 2^127, 2^128-1 and negatives, each in every integer repr that can hold it, the floats equal or adjacent to them, +-0.0, +-inf, NaN, booleans, none, undefined, short strings; all ordered pairs and all triples" stmt="cmp is antisymmetric, reflexive and transitive; a == b iff cmp(a,b) is Equal (NaN and the listed bool-vs-number finding aside); equal values hash identically; equality is transitive"
+    fn scalar_pool_native() {
+        use std::collections::hash_map::DefaultHasher;
+        use std::hash::{Hash, Hasher};
+        fn h(v: &Value) -> u64 { let mut s = DefaultHasher::new(); v.hash(&mut s); s.finish() }
+        let mut pool: Vec<Value> = Vec::new();
+        let ints: &[i128] = &[0, 1, -1, 2, 255, (1 << 53) - 1, 1 << 53, (1 << 53) + 1, -(1 << 53), -(1 << 53) - 1,
+            i64::MAX as i128, (i64::MAX as i128) + 1, i64::MIN as i128, (i64::MIN as i128) - 1, u64::MAX as i128, (u64::MAX as i128) + 1,
+            i128::MAX, i128::MIN, i128::MAX - 1];
+        for &i in ints {
+            if let Ok(x) = i64::try_from(i) { pool.push(Value::from(x)); }
+            if let Ok(x) = u64::try_from(i) { pool.push(Value::from(x)); }
+            if let Ok(x) = u128::try_from(i) { pool.push(Value::from(x)); }
+            pool.push(Value::from(i));
+            pool.push(Value::from(i as f64));
+        }
+        for u in [1u128 << 127, (1u128 << 127) + 1, u128::MAX, u128::MAX - 1] { pool.push(Value::from(u)); pool.push(Value::from(u as f64)); }
+        for f in [0.0f64, -0.0, 0.5, -0.5, 1.5, f64::INFINITY, f64::NEG_INFINITY, f64::MAX, f64::MIN, f64::MIN_POSITIVE,
+                  9007199254740993.0, 9223372036854775808.0, 18446744073709551616.0, 1.8446744073709552e19, 3.402823669209385e38] { pool.push(Value::from(f)); }
+        let nan = Value::from(f64::NAN);
+        pool.push(Value::from(true)); pool.push(Value::from(false)); pool.push(Value::from(())); pool.push(Value::UNDEFINED);
+        for s in ["", "a", "ab", "b", "1", "é"] { pool.push(Value::from(s)); pool.push(Value::from_safe_string(s.to_string())); }
+        pool.push(Value::from("a string that is longer than the inline small string capacity"));
+        let is_bool = |v: &Value| matches!(v.0, ValueRepr::Bool(_));
+        let is_num = |v: &Value| v.is_number();
+        for a in &pool { for b in &pool {
+            let o = a.cmp(b);
+            assert!(b.cmp(a) == o.reverse(), "antisymmetry: {a:?} {b:?}");
+            let e = a == b;
+            assert!(e == (b == a), "== not symmetric: {a:?} {b:?}");
+            let listed = (is_bool(a) && is_num(b)) || (is_num(a) && is_bool(b)); // known finding: true == 1 but ordered by kind
+            if !listed {
+                assert!(e == (o == Ordering::Equal), "order disagrees with ==: {a:?} ({:?}) {b:?} ({:?}) cmp={o:?} eq={e}", a.0._kind(), b.0._kind());
+                if e { assert!(h(a) == h(b), "equal values hash differently: {a:?} ({}) {b:?} ({})", a.0._kind(), b.0._kind()); }
+            }
+        }}
+        for a in &pool { assert!(a.cmp(a) == Ordering::Equal && a == a); }
+        for a in &pool { for b in &pool { for c in &pool {
+            if a.cmp(b) != Ordering::Greater && b.cmp(c) != Ordering::Greater {
+                assert!(a.cmp(c) != Ordering::Greater, "cmp not transitive: {a:?} {b:?} {c:?}");
+            }
+            let bools = is_bool(a) || is_bool(b) || is_bool(c);
+            if !bools && a == b && b == c { assert!(a == c, "== not transitive: {a:?} {b:?} {c:?}"); }
+        }}}
+        // NaN: never equal to anything, ordering still antisymmetric
+        for a in &pool { assert!(&nan != a && a != &nan); assert!(nan.cmp(a) == a.cmp(&nan).reverse()); }
+        assert!(nan != nan.clone());
+    }
+    trait ReprKind { fn _kind(&self) -> &'static str; }
+    impl ReprKind for ValueRepr {
+        fn _kind(&self) -> &'static str {
+            match self { ValueRepr::U64(_) => "u64", ValueRepr::I64(_) => "i64", ValueRepr::U128(_) => "u128", ValueRepr::I128(_) => "i128",
+                         ValueRepr::F64(_) => "f64", ValueRepr::Bool(_) => "bool", _ => "other" }
+        }
+    }
